@@ -69,3 +69,15 @@ package normalpath
 //@   loop 0 invariant curPath == path || hasPrefix(path, curPath + "/") || curPath == "."
 //@   loop 0 invariant ancOrSelf(value, path) && value != "." ==> curPath != "." && (value == curPath || hasPrefix(curPath, value + "/"))
 //@   canary ensures r
+//
+// The map holds a key that equals path or is one of its ancestors (path-wise).
+//@ pure func MapHasEqualOrContainingPath(m, path, pathType) (r)
+//@   property C06 C11 C14
+//@   use valid-nonempty
+//@   reveal ancOrSelf
+//@   requires pathType == Relative && validRel(path) && (forall k string :: k in m ==> validRel(k))
+//@   ensures exists-ancestor: r <==> (exists k string :: k in m && ancOrSelf(k, path))
+//@   loop 0 invariant validRel(curPath)
+//@   loop 0 invariant curPath == path || hasPrefix(path, curPath + "/") || curPath == "."
+//@   loop 0 invariant forall k string :: k in m && ancOrSelf(k, path) && k != "." ==> curPath != "." && (k == curPath || hasPrefix(curPath, k + "/"))
+//@   canary ensures r
